@@ -269,6 +269,18 @@ func runC15Direct(c *core.Ctx) *core.Violation {
 			c.Probe("single_slot_range")
 		}
 	}
+	// the probe key of single-slot shards: the search has to go on until it finds a key (some slots need more than
+	// 100 000 candidates); 64 tape-chosen slots in one run of ten
+	if t.Choose(10) == 9 {
+		for k := 0; k < 64; k++ {
+			sl := t.Choose(16384)
+			pk := latencymonitor.VerifFindKeyInRange(sl, sl)
+			if got := rc.KeySlot([]byte(pk)); got != sl {
+				return core.Violate("probe-key-range", "single-slot", "latency probe key %q for the single-slot shard [%d,%d] hashes to slot %d", pk, sl, sl, got)
+			}
+		}
+		c.Probe("probe_key_single_slots")
+	}
 	c.Sample = map[string]interface{}{"keys": keys[:6], "ranges": fmt.Sprint(ranges)}
 	c.Key = hashBytes([]byte(strings.Join(keys, "\x00") + fmt.Sprint(ranges)))
 	c.Nontrivial = true
@@ -321,6 +333,6 @@ func init() {
 			"the cluster client library's GetSlot (used by ChoseSlotInRange) is third-party code and is only judged through the returned key",
 		},
 		RealVsStub: "shard part: real dbSync pipeline + checkpoint loader against simulated master/target; direct part: real: utils.KeyToSlot, utils crc16, latencymonitor crc16/findKeyInRange (reached through scratch-only export shims), utils.ChoseSlotInRange, filter.FilterKey; no simulated component is involved",
-		ProbeNames: []string{"several_shards_at_once", "single_slot_range", "several_open_braces", "empty_tag", "shard_sync_observed"},
+		ProbeNames: []string{"several_shards_at_once", "probe_key_single_slots", "single_slot_range", "several_open_braces", "empty_tag", "shard_sync_observed"},
 	})
 }
